@@ -3,3 +3,8 @@ pub mod c01 {
     use super::*;
     include!("c01.rs");
 }
+pub mod c02 {
+    #[allow(unused_imports)]
+    use super::*;
+    include!("c02.rs");
+}
